@@ -138,7 +138,7 @@ def build_thread(interp, tid, calls, mem):
         kind = desc[0]
         def reg(name, sort):
             return z3.Const("t%d_n%d_%s" % (tid, n.id, name), sort)
-        if kind in ("aload", "afadd", "afsub", "aswap"):
+        if kind in ("aload", "afadd", "afsub", "aswap", "armw"):
             srt = mem[desc[1]]["sort"]; r = reg("r", srt); n.rvars = [r]; return r
         if kind == "pload":
             srt = mem[desc[1]]["sort"]; r = reg("r", srt); n.rvars = [r]
